@@ -157,6 +157,8 @@ def function_cases(ctx, dist):
         for v in shapes:
             if isinstance(k, bytes) or isinstance(v, bytes):
                 continue
+            if ctx.quick and rng.random() < 0.5:
+                continue
             add("KIn %s %s %s" % (c_pv(k), c_pv(v), c_res(call(lambda: k in v), c_bool)), ("KIn", k, v))
             add("KEq %s %s %s" % (c_pv(k), c_pv(v), c_bool(k == v)), ("KEq", k, v))
     for v in shapes:
@@ -251,7 +253,7 @@ def function_cases(ctx, dist):
                 if jj is None:
                     continue
             add("FDecodeHeader %s %s %s" % (c_hex(sg), jj, c_res(call(c15.decode_header, sg), c_pv)), ("FDecodeHeader", sg))
-            for text in (sg, sg.decode("latin1")):
+            for text in ((sg, sg.decode("latin1")) if sg is seg or not ctx.quick else (sg,)):
                 add("FJsonB64 %s %s %s" % (c_pv(text), jj, c_res(call(util.json_b64decode, text), c_pv)), ("FJsonB64", text))
     for text in ("é", "\ud800", 5, None, [101, 51, 48], ["e30"], {}, {"a": 1}, True, "e30", b"e30", 1.5, 1234, [], "", b"", "W10", [87, 49, 48]):
         tb = call(util.to_bytes, text, "ascii")
@@ -316,12 +318,12 @@ def entry_cases(ctx, calls, dist):
     rng.shuffle(cand)
     per_tag = collections.Counter()
     picked = []
-    cap = ctx.scale(60, 1500)
+    cap = ctx.scale(60, 600)
     for c in cand:
         if per_tag[c[4]] < cap:
             per_tag[c[4]] += 1
             picked.append(c)
-    picked = picked[: ctx.scale(2000, 60000)]
+    picked = picked[: ctx.scale(2000, 20000)]
     with VerifyRecorder() as rec:
         for (entry, value, keyname, reg, tag) in picked:
             del rec.log[:]
@@ -361,6 +363,41 @@ def entry_cases(ctx, calls, dist):
     return cases, meta
 
 
+def shard_bounds(cases, shard, max_chars):
+    """the shard boundaries lib.CoqEval.run uses"""
+    bounds, start, size = [], 0, 0
+    for i, c in enumerate(cases):
+        if i > start and (i - start >= shard or size + len(c) > max_chars):
+            bounds.append((start, i)); start, size = i, 0
+        size += len(c)
+    if cases:
+        bounds.append((start, len(cases)))
+    return bounds
+
+
+def run_eval(ev, cases):
+    """CoqEval with moderate parallelism; a shard whose coqc died without output (the machine is
+    shared: out-of-memory kills) is retried once on its own"""
+    res = ev.run(cases, jobs=6)
+    if res["errors"]:
+        bounds = dict(shard_bounds(cases, ev.shard, ev.max_chars))
+        errors = []
+        for si, err in res["errors"]:
+            if si in bounds and ("Error" not in err):
+                time.sleep(2)
+                r2 = ev.run(cases[si:bounds[si]], jobs=2)
+                if not r2["errors"]:
+                    res["evaluated"] += r2["evaluated"]
+                    res["failing"] += [si + i for i in r2["failing"]]
+                    for k, v in r2["shows"].items():
+                        res["shows"][si + k] = v
+                    continue
+                err = r2["errors"][0][1]
+            errors.append((si, err))
+        res["errors"] = errors
+    return res
+
+
 def run(ctx):
     warnings.simplefilter("ignore")
     ok, log = ctx.prove(extra_targets=["model/C16Cases.vo"])
@@ -385,7 +422,7 @@ def run(ctx):
     ev = lib.CoqEval(["From Model Require Import Base PyVal TableTypes C16Model C16Cases."], "c16case", "c16_check", "c16_show",
                      shard=300, max_chars=90000)
     t3 = time.time()
-    res = ev.run(cases)
+    res = run_eval(ev, cases)
     ctx.sample({"secs_prove": round(t0 - ctx.t0, 1), "secs_coq_eval": round(time.time() - t3, 1)})
     ctx.coverage["traces_validated_against_impl"] = res["evaluated"]
     ctx.coverage["disagreements_checked"] = len(res["failing"])
